@@ -2,7 +2,9 @@
 # refactor_sweep.sh <dir-with-r*.diff>... : apply each behaviour-preserving refactoring to the repo copy ($REPO), run every
 # check, undo it. A check that exits non-zero or prints VIOLATION on such a tree is a false alarm.
 V="$(cd "$(dirname "$0")/.." && pwd)"; REPO="${REPO:-/repo}"; export REPO
-for d in "$@"; do
+# usage: refactor_sweep.sh <dir> ["props to run"]  (all checks when no list is given)
+d="$1"; [ -n "$2" ] && export PROPS="$2"
+for d in "$d"; do
   for p in $(ls "$d"/r*.diff | xargs -n1 realpath); do
     git -C "$REPO" diff --quiet || { echo "$REPO dirty"; exit 2; }
     git -C "$REPO" apply "$p" || { echo "$p does not apply"; continue; }
